@@ -110,6 +110,8 @@ class PushOrder(Domain):
                 self.client_path(d, depth + 1) for d in defs)
         if isinstance(e, ast.Tuple) and len(e.elts) == 1:
             return self.client_path(e.elts[0], depth + 1)
+        if isinstance(e, ast.Tuple) and not e.elts and depth:
+            return True              # no client: nothing is pushed
         if isinstance(e, ast.IfExp):
             return self.client_path(e.body, depth + 1) and \
                 self.client_path(e.orelse, depth + 1)
